@@ -13,6 +13,7 @@
 import PdsVerif.Lemmas.StftStream
 import PdsVerif.Lemmas.Walk
 import PdsVerif.Lemmas.Dft
+import PdsVerif.Props.FrameCoeffTie
 import Mathlib.Algebra.BigOperators.Group.Finset.Basic
 import Mathlib.Algebra.Order.Floor.Ring
 import Mathlib.Algebra.Order.Field.Basic
@@ -306,6 +307,41 @@ theorem coefficient_eq_full_dft_sum {M : Type} [AddCommMonoid M] (D start len : 
 
 /-- the two non-linearities of the code satisfy the side condition -/
 example : Complex.normSq 0 = 0 ∧ ‖(0 : ℂ)‖ = 0 := by simp
+
+/-! ## the capstone: what `_compute_frame` stores for one filter, in the property's words -/
+
+open PdsVerif.Dft PdsVerif.Gen.FrameCoeff PdsVerif.FrameCoeffTie in
+/-- **STFT coefficient = the documented formula.**  Put together: the statements regenerated from the source
+(`_power` / `_mag`, `val += nonlin(segment)`, the doubling and log-floor after the loop — `Generated/FrameCoeff.lean`),
+the segment walk (`Walk.run`, cut into segments in ANY way: `segs.flatten = Walk.run …`), and NumPy's DFT of the real,
+windowed, zero-padded frame `x` read from the half spectrum with conjugation on the mirrored pass.  The stored
+coefficient is
+
+  `logFloor( (2 if the bank is real) · Σ_{b < D} |X[b] · H[b]|^p )`,  `p = 2` if `use_power` else `1`,
+
+the sum running over the FULL spectrum, `H` the response rebuilt from the truncated response by the documented
+recipe.  (For a real bank `H` holds the half-spectrum taps only and the factor 2 accounts for their mirror images:
+`real_doubling`.) -/
+theorem stft_coefficient_spec (D start len : Nat) (hD : 0 < D) (hlen : len ≤ D) (x : Nat → ℂ)
+    (hx : ∀ n, (starRingEnd ℂ) (x n) = x n) (tap : Nat → ℂ) (p isReal useLog : Bool) (floor : ℝ)
+    (segs : List (List Walk.Hit)) (hsegs : segs.flatten = Walk.run D start len) :
+    np_finish isReal useLog floor
+        (segs.foldl (fun acc s => np_accum acc (np_nonlin p (s.map fun h => ‖readHit D x h * tap h.tap‖))) 0)
+      = logFloor useLog floor ((if isReal then 2 else 1) *
+          ∑ b ∈ Finset.range D, entry p ‖dft D x (b : ℤ) * rebuilt D start len tap b‖) := by
+  have hfold : segs.foldl (fun acc s => np_accum acc (np_nonlin p (s.map fun h => ‖readHit D x h * tap h.tap‖))) 0
+      = (segs.map fun s => s.map fun h => ‖readHit D x h * tap h.tap‖).foldl
+          (fun acc s => np_accum acc (np_nonlin p s)) 0 := by
+    rw [List.foldl_map]
+  rw [hfold, coeff_eq_spec]
+  congr 2
+  have hflat : (segs.map fun s => s.map fun h => ‖readHit D x h * tap h.tap‖).flatten
+      = (Walk.run D start len).map fun h => ‖readHit D x h * tap h.tap‖ := by
+    rw [← hsegs, List.map_flatten]
+  rw [hflat, List.map_map]
+  have := coefficient_eq_full_dft_sum D start len hD hlen x hx tap (fun z => entry p ‖z‖)
+    (by cases p <;> simp [entry])
+  simpa [Function.comp_def] using this
 
 /-! non-vacuity -/
 example : Walk.run 8 6 5 = Walk.spec 8 6 5 ∧ (Walk.run 8 6 5).length = 5 := by decide
